@@ -2,6 +2,7 @@ package vh
 
 import (
 	"bufio"
+	"context"
 	"encoding/json"
 	"flag"
 	"fmt"
@@ -152,8 +153,55 @@ func (r *sessRun) driftf(format string, a ...interface{}) {
 	r.drift = append(r.drift, fmt.Sprintf(format, a...))
 }
 
+// sessNoisePeer serves the neighbouring connections of neighbourNoise: a peer of its own, without plugins or routes.
+var sessNoisePeer erpc.Peer
+
+// neighbourNoise: before a free-running scenario, a few other connections of the process (to another peer) receive
+// messages that end with a non-OK handling status -- a push and a call for routes that do not exist, a frame of an
+// unsupported type -- and go away.  What they leave behind in the process (pooled handler contexts, buffers) must
+// not matter to the session under observation.
+func neighbourNoise(n int) {
+	if sessNoisePeer == nil {
+		sessNoisePeer = erpc.NewPeer(erpc.PeerConfig{})
+	}
+	var wg sync.WaitGroup
+	for k := 0; k < 16; k++ {
+		wg.Add(1)
+		go func(k int) {
+			defer wg.Done()
+			a, b := Pipe(fmt.Sprintf("NX%d.%d", n, k), fmt.Sprintf("NY%d.%d", n, k))
+			go func() {
+				buf := make([]byte, 4096)
+				for {
+					if _, err := b.Read(buf); err != nil {
+						return
+					}
+				}
+			}()
+			ns, st := sessNoisePeer.ServeConn(a)
+			if !st.OK() {
+				return
+			}
+			b.Write(packFrame(erpc.TypePush, 1, "/no/such/push", &Arg{Tag: "noise"}, nil))
+			b.Write(packFrame(erpc.TypeCall, 2, "/no/such/call", &Arg{Tag: "noise"}, nil))
+			b.Write(packFrame(9, 3, "/no/such/type", &Arg{Tag: "noise"}, nil))
+			select {
+			case <-ns.CloseNotify():
+			case <-time.After(200 * time.Millisecond):
+			}
+			b.Close()
+			ns.Close()
+		}(k)
+	}
+	wg.Wait()
+}
+
 func (r *sessRun) run(n int, seed int64) {
 	sc := r.sc
+	if sc.Mode != "strict" {
+		r.g.RecordOnly()
+		neighbourNoise(n)
+	}
 	r.sn = fmt.Sprintf("S%d", n)
 	rn := fmt.Sprintf("R%d", n)
 	r.seqOf = map[string]int32{}
@@ -193,6 +241,15 @@ func (r *sessRun) run(n int, seed int64) {
 	}
 	r.sess = sess
 	r.rec.Emit("SessEst", "s", r.sn, "id", sess.ID())
+	if !strict && n%2 == 1 {
+		// earlier on this session: a call that failed before anything was written (its context had been cancelled).
+		// It is over and done with; the calls of the scenario must be waited for, completed and counted as if it had
+		// never been made
+		cctx, cancel := context.WithCancel(context.Background())
+		cancel()
+		r.sess.Call(CallRoute, &Arg{Tag: "pre"}, nil, erpc.WithContext(cctx))
+		r.nseq++
+	}
 	go r.rawReader()
 	if strict {
 		if !r.g.WaitParked(r.key("read.next"), stepWait) {
